@@ -33,7 +33,8 @@ NAMESPACES = ['/a/b', '/a', '/', '/a/bc', '/x/y']
 IFACES = ['org.verif.A', 'org.verif.B', 'org.verif.AB']
 MEMBERS = ['Sig', 'Sig2', 'Si']
 DESTS = [':1.5', 'org.verif.D', ':1.6']
-ARGVALS = ['x', 'y', '', '/a/', '/a/b', '/a/b/', '/a/bc', '/a', 'xy', '1', '2']    # '1', '2': the text of integer arguments
+ARGVALS = ['x', 'y', '', '/a/', '/a/b', '/a/b/', '/a/bc', '/a', 'xy', '1', '2',     # '1', '2': the text of integer arguments
+           'C:\\t\\new', 'col1\tcol2', 'k=v']     # backslashes, a tab, an equals sign: literal inside the quotes of a rule
 TYPES = ['signal', 'method_call', 'method_return', 'error']
 
 
